@@ -1467,9 +1467,22 @@ impl ExecutionPlan for SortExec {
     fn statistics_from_inputs(
         &self,
         input_stats: &[Arc<Statistics>],
-        _args: &StatisticsArgs,
+        args: &StatisticsArgs,
     ) -> Result<Arc<Statistics>> {
         let stats = input_stats[0].as_ref().clone();
+        let n_partitions = self.input.output_partitioning().partition_count();
+        if self.fetch.is_some() && self.preserve_partitioning() && n_partitions > 1 {
+            // Every output partition keeps its own top `fetch` rows (so the node
+            // emits up to `fetch * n_partitions` rows), and the partitions share
+            // the TopK threshold filter, so a partition may emit fewer rows than
+            // `min(input rows, fetch)`: the counts are estimates only.
+            let n = if args.partition().is_some() {
+                1
+            } else {
+                n_partitions
+            };
+            return Ok(Arc::new(stats.with_fetch(self.fetch, 0, n)?.to_inexact()));
+        }
         Ok(Arc::new(stats.with_fetch(self.fetch, 0, 1)?))
     }
 
